@@ -95,6 +95,21 @@ fn main() {
             }
             (prop, tier.name().to_string())
         }
+        "cold" => {
+            // sqlverif cold <Cnn> --shard <index>/<n>   (index = position in the property's cold list; n is ignored)
+            let prop = args[2].clone();
+            cal::set_light_mode();
+            st.seq_shard = (0, 1);
+            let idx = if shard.1 == 0 { None } else { Some(shard.0 as usize) };
+            match props::cold(&prop, idx, &mut st) {
+                Some(n) => st.bumpn("cold list length", n as u64),
+                None => {
+                    eprintln!("no cold list for {}", prop);
+                    std::process::exit(64);
+                }
+            }
+            (prop, "cold".to_string())
+        }
         "replay" => {
             let text = std::fs::read_to_string(&args[2]).expect("cannot read replay file");
             let v: serde_json::Value = serde_json::from_str(&text).expect("replay file is not JSON");
